@@ -2,6 +2,7 @@ package main
 
 import (
 	"go/types"
+	"golang.org/x/tools/go/ssa"
 	"strings"
 )
 
@@ -115,6 +116,120 @@ func runC11(c *Ctx) {
 		if nBuf == 0 {
 			c.Ok("R5.ownreply", "Server|no reply buffer kept in the server", w.Pos(m.Server.Obj().Pos()), "no operation stores a byte slice into a field of the server")
 		}
+	}
+
+	// ... and the raw exchange is one critical section: the exclusive lock is taken once in the relay operation, before
+	// the request is written, and held until the reply has been read (two separately locked halves let another
+	// client's exchange slip in between, and the replies cross)
+	if fwd := m.Methods["Forward"]; fwd != nil {
+		c.Saw(fwd)
+		isMu := func(call ssa.CallInstruction, name string) bool {
+			callee := call.Common().StaticCallee()
+			if callee == nil || callee.Name() != name || len(call.Common().Args) == 0 {
+				return false
+			}
+			if !strings.HasPrefix(fnName(callee), "(*sync.") {
+				return false
+			}
+			fa, ok := call.Common().Args[0].(*ssa.FieldAddr)
+			return ok && isFieldOf(fa.X.Type(), m.Owner(m.fMu), m.fMu, fa.Field)
+		}
+		// the frame that holds the critical section: Forward, or a function it hands the whole exchange to
+		okOne, why := false, "no function on Forward's tree takes the exclusive lock around both halves"
+		for _, frame := range w.Tree(fwd) {
+			if frame.Parent() != nil || okOne {
+				continue
+			}
+			lift := func(ins ssa.Instruction) ([]ssa.Instruction, bool) {
+				cur := []ssa.Instruction{ins}
+				for hop := 0; hop < 4; hop++ {
+					var next []ssa.Instruction
+					done := true
+					for _, x := range cur {
+						if x.Parent() == frame {
+							next = append(next, x)
+							continue
+						}
+						done = false
+						sites := w.sitesIn(frame, x.Parent())
+						if len(sites) == 0 {
+							return nil, false // used outside this frame's tree
+						}
+						for _, site := range sites {
+							next = append(next, site.(ssa.Instruction))
+						}
+					}
+					cur = next
+					if done {
+						break
+					}
+				}
+				for _, x := range cur {
+					if x.Parent() != frame {
+						return nil, false
+					}
+				}
+				return cur, true
+			}
+			var uses []ssa.Instruction
+			inFrame := true
+			for _, a := range w.FieldAccesses(m.Owner(m.fConn), m.fConn) {
+				if a.Fn != fwd && !w.inTree(fwd, a.Fn) {
+					continue
+				}
+				l, ok := lift(a.Instr)
+				if !ok {
+					inFrame = false
+					break
+				}
+				uses = append(uses, l...)
+			}
+			if !inFrame || len(uses) < 2 {
+				continue
+			}
+			var lock ssa.Instruction
+			var unlocks []ssa.Instruction
+			for _, call := range callsIn(frame) {
+				if _, isDefer := call.(*ssa.Defer); isDefer {
+					continue
+				}
+				if isMu(call, "Lock") && lock == nil {
+					lock = call.(ssa.Instruction)
+				}
+				if isMu(call, "Unlock") {
+					unlocks = append(unlocks, call.(ssa.Instruction))
+				}
+			}
+			if lock == nil {
+				continue
+			}
+			good := true
+			for _, u := range uses {
+				if !InstrDominates(lock, u) {
+					good = false
+					why = "a use of the connection is not preceded by the lock taken in " + shortFn(frame)
+				}
+			}
+			for _, ul := range unlocks {
+				before, after := false, false
+				for _, u := range uses {
+					if ReachableAvoiding(u, nil)(ul) {
+						before = true
+					}
+					if ReachableAvoiding(ul, nil)(u) {
+						after = true
+					}
+				}
+				if before && after {
+					good = false
+					why = "the lock is released between the request write and the reply read"
+				}
+			}
+			if good {
+				okOne = true
+			}
+		}
+		c.Check(okOne, "R5.ownreply", "Forward|request write and reply read in one critical section", w.FnPos(fwd), "one mu.Lock() dominates every use of the raw connection on Forward's tree, no release in between", "the raw exchange is not one critical section ("+why+"): another client's exchange can come between the request and its reply")
 	}
 
 	// R4: yubiagent client
